@@ -32,9 +32,32 @@ def split_text(rng, root):
     new = copy.deepcopy(t); new.tail = None
     a, b = t.text[:cut], t.text[cut:]
     t.text = a; new.text = b
-    for x in (t, new): x.set('{http://www.w3.org/XML/1998/namespace}space', 'preserve')
+    # as Word writes it: xml:space="preserve" only on a piece with leading / trailing white space (sometimes on both anyway)
+    XS = '{http://www.w3.org/XML/1998/namespace}space'
+    both = rng.random() < 0.3
+    for x in (t, new):
+        if both or x.text != x.text.strip(): x.set(XS, 'preserve')
+        elif XS in x.attrib: del x.attrib[XS]
     t.addnext(new)
     return True
+
+
+def split_text_inside(needle):
+    """a cut that falls INSIDE an occurrence of `needle` (the way a spelling or revision boundary cuts a placeholder)"""
+    def f(rng, root):
+        ts = [t for t in root.iter(w('t')) if t.text and needle in t.text and t.getparent().tag == w('r') and len(needle) >= 2]
+        if not ts: return False
+        t = rng.choice(ts); at = t.text.index(needle); cut = at + rng.randint(1, len(needle) - 1)
+        new = copy.deepcopy(t); new.tail = None
+        a, b = t.text[:cut], t.text[cut:]
+        t.text = a; new.text = b
+        XS = '{http://www.w3.org/XML/1998/namespace}space'
+        for x in (t, new):
+            if x.text != x.text.strip(): x.set(XS, 'preserve')
+            elif XS in x.attrib: del x.attrib[XS]
+        t.addnext(new)
+        return True
+    return f
 
 
 def split_link(rng, root):
@@ -106,10 +129,14 @@ def respell(rng, root):
 OPS = [('respell', respell), ('split_run', split_run), ('split_text', split_text), ('split_link', split_link), ('sprinkle', sprinkle), ('unrecognised', unrecognised)]
 
 
-def variant(rng, data, parts, nops):
-    """apply nops random rewrites to the given parts; returns (bytes, list of applied op names)"""
+def variant(rng, data, parts, nops, first=()):
+    """apply nops random rewrites to the given parts; returns (bytes, list of applied op names); `first`: (name, op) pairs tried on
+    every part before the random ones"""
     z = zipfile.ZipFile(io.BytesIO(data)); out = io.BytesIO(); applied = []
     roots = {p: etree.fromstring(z.read(p)) for p in parts}
+    for name, f in first:
+        for p in parts:
+            if f(rng, roots[p]): applied.append(name)
     for _ in range(nops):
         p = rng.choice(parts); name, f = rng.choice(OPS)
         if f(rng, roots[p]): applied.append(name)
